@@ -19,7 +19,7 @@ VERIF = os.path.dirname(os.path.dirname(os.path.abspath(__file__)))
 BUILD = os.environ.get("BTCSIM_BUILD", os.path.join(VERIF, "build"))
 
 PROBE_GROUPS = ["core", "counters", "codehash", "execdata", "phases", "hist", "tce", "next"]
-WRAPS = ["main", "isatty", "fileno", "getenv", "fopen", "exit", "abort", "__assert_fail", "ioctl", "poll", "select"]
+WRAPS = ["main", "isatty", "fileno", "getenv", "fopen", "exit", "abort", "__assert_fail", "ioctl", "poll", "select", "fstat", "fstat64"]
 
 FLAVOURS = {
     # UBSan subset = what C15 names (traps, out-of-bounds, null); no
